@@ -12,7 +12,7 @@ use std::collections::{HashMap, HashSet};
 
 pub const LEVEL: &str = "exploration";
 pub const EXHAUSTIVE: bool = false;
-pub const RULE: &str = "generated histories of 2..9 steps over {type a text lead.letters.trail with front-end selection bytes and commit an index (70% any index, 30% the preselected one), re-type the identical text of an earlier step, compose a learned word followed by a suffix key, restart = new context over the same user directory}, smart quotes and English free; then suffix probes (3 learned words + generated suffix keys, plus EVERY base+suffix text composed on the way) typed both in the context that lived through the history and in a freshly restarted one; plus a directed part where both decompositions of W = B.s1.s2 rest on choices of the user (B.s1 learned first, then B). Oracle (model of the store): after a commit of i != preselected with candidate c for text X, the next typing of the identical X - same context or after any number of restarts and other commits - has candidates[preselected] == c (expectation dropped when a later learning commit concerns the same word under another text); commit of the preselected index leaves the parsed store unchanged; after EVERY commit the file parses as a JSON object of strings and a new context loads it; suffix clause: own = the store entries whose key the user committed a non-preselected candidate for; ideal(W) = own[W], else the unique join(own[B], suffix[s]) over all splits W = B.s into an own-learned word and ONE known suffix (several different values: ambiguous, counted and skipped); typing W that is not an own choice, with ideal(W) defined and offered, must preselect exactly that candidate. Commits of the raw English candidate under a wrapper that transliterates are excluded by construction (known finding) and counted. Non-trivial: a non-preselected commit followed by a re-typing after a restart, or a two-decomposition check whose expected candidate is not at index 0; distinct by history.";
+pub const RULE: &str = "generated histories of 2..9 steps over {type a text lead.letters.trail with front-end selection bytes and commit an index (70% any index, 30% the preselected one), re-type the identical text of an earlier step, compose a learned word followed by a suffix key, restart = new context over the same user directory}, smart quotes and English free; then suffix probes (3 learned words + generated suffix keys, plus EVERY base+suffix text composed on the way) typed both in the context that lived through the history and in a freshly restarted one; plus a directed part where both decompositions of W = B.s1.s2 rest on choices of the user (B.s1 learned first, then B). Oracle (model of the store): after a commit of i != preselected with candidate c for text X, the next typing of the identical X - same context or after any number of restarts and other commits - has candidates[preselected] == c (expectation dropped when a later learning commit concerns the same word under another text); commit of the preselected index leaves the parsed store unchanged; after EVERY commit the file parses as a JSON object of strings and a new context loads it; suffix clause: own = the store entries whose key the user committed a non-preselected candidate for; ideal(W) = own[W], else the unique join(own[B], suffix[s]) over all splits W = B.s into an own-learned word and ONE known suffix (several different values: ambiguous, counted and skipped); typing W that is not an own choice, with ideal(W) defined and offered, must preselect exactly that candidate. Commits of the raw English candidate under a wrapper that transliterates are excluded by construction (known finding) and counted. Non-trivial: a non-preselected commit followed by a re-typing after a restart, or a two-decomposition check whose expected candidate is not at index 0; distinct by history. The every-suffix-key part also learns five one-letter words (the suffixed text then has two letters).";
 pub const ASSUMPTIONS: &[&str] = &[
     "selection bytes follow the front-end protocol (the previous list's preselected index)",
     "'the same text' = identical key sequence, wrapper included",
@@ -536,9 +536,10 @@ fn suffix_keys_of_base(base: &str, which: usize, chunk: usize, st: &mut Stats) -
 /// context that learned the base and in a restarted one.  (Generated probes meet a particular key - the longest, the
 /// shortest, one that is a prefix of another - only by chance.)
 fn all_suffix_keys(run: &Run) {
-    // the last five are bases whose suffixed forms are themselves suffix keys ("ta"+"r" = "tar"): the text as a whole
+    // the last five are one-letter words (the suffixed text has two letters: the shortest that has a decomposition), the
+    // five before them are bases whose suffixed forms are themselves suffix keys ("ta"+"r" = "tar"): the text as a whole
     // and its decomposition compete
-    let bases = ["sesh", "kolkol", "onno", "amar", "hothat", "rong", "ebong", "sot", "ta", "sokol", "shob", "khana", "mala"];
+    let bases = ["sesh", "kolkol", "onno", "amar", "hothat", "rong", "ebong", "sot", "ta", "sokol", "shob", "khana", "mala", "s", "k", "t", "n", "b"];
     let items: Vec<(usize, usize, usize)> = (0..bases.len()).flat_map(|b| (0..3usize).flat_map(move |which| (0..8usize).map(move |chunk| (b, which, chunk)))).collect();
     run.exhaustive(
         "learned-base-x-every-suffix-key",
